@@ -9,6 +9,9 @@ use std::collections::HashMap;
 use std::time::Duration;
 use tower::{Service, ServiceExt};
 
+mod certs;
+mod hostile;
+
 fn peer(v: &Value) -> PeerId {
     let mut b = [0u8; 32];
     for (i, x) in v.as_array().expect("32 bytes").iter().enumerate() {
@@ -393,7 +396,7 @@ async fn history(args: &Value) -> Value {
 
 fn main() {
     let args: Vec<String> = std::env::args().collect();
-    let multi = matches!(args.get(1).map(|s| s.as_str()), Some("admission") | Some("default_timeouts") | Some("rpc_pairing") | Some("history") | Some("oversize_confined"));
+    let multi = matches!(args.get(1).map(|s| s.as_str()), Some("admission") | Some("default_timeouts") | Some("rpc_pairing") | Some("history") | Some("oversize_confined") | Some("hostile_streams"));
     let rt = if multi {
         tokio::runtime::Builder::new_multi_thread().worker_threads(2).enable_all().build().unwrap()
     } else {
@@ -501,6 +504,26 @@ async fn run(args: Vec<String>) {
         "history" => history(&a).await,
         "rpc_pairing" => rpc_pairing(&a).await,
         "default_timeouts" => default_timeouts(&a).await,
+        "cert_corpus" => certs::cert_corpus(&a),
+        "hostile_streams" => hostile::hostile_streams(&a).await,
+        // several messages written in ONE process, one after the other (state kept between calls would show)
+        "write_sequence" => {
+            let mut out = Vec::new();
+            for m in a["messages"].as_array().unwrap() {
+                let r = if m["kind"] == "request" { h::write_request_bytes(&config(m), request_of(m)).await } else { h::write_response_bytes(&config(m), response_of(m)).await };
+                out.push(match r { Ok(b) => json!({"ok": true, "bytes": hex::encode(&b)}), Err(e) => json!({"ok": false, "error": e.to_string()}) });
+            }
+            let mut back = Vec::new();
+            for m in a["read"].as_array().map(|v| v.as_slice()).unwrap_or(&[]) {
+                let bytes = bytes_of(&m["bytes"]);
+                back.push(if m["kind"] == "request" {
+                    match h::read_request_bytes(&config(m), &bytes).await { Ok(r) => json!({"ok": true, "route": r.route(), "headers": hm(r.headers()), "body": r.body().to_vec()}), Err(e) => json!({"ok": false, "error": e.to_string()}) }
+                } else {
+                    match h::read_response_bytes(&config(m), &bytes).await { Ok(r) => json!({"ok": true, "status": r.status().to_u16(), "headers": hm(r.headers()), "body": r.body().to_vec()}), Err(e) => json!({"ok": false, "error": e.to_string()}) }
+                });
+            }
+            json!({"written": out, "read": back})
+        }
         other => json!({"error": format!("unknown scenario {other}")}),
     };
     println!("{}", out);
